@@ -239,7 +239,7 @@ func (e *Engine) runBlock(fr *frame, b *ssa.BasicBlock, from int, st *State, del
 			ts, fs := st.clone(), st
 			e.assume(ts, cond)
 			e.assume(fs, e.C.Not(cond))
-			if e.paths && !cond.IsTrue() && !cond.IsFalse() && e.C.Size(&smt.Query{Asserts: []*smt.Term{cond}}) >= 8 {
+			if e.paths && !cond.IsTrue() && !cond.IsFalse() {
 				// at least one side is possible when the state before the branch was
 				if !e.feasible(ts) {
 					ts = nil
